@@ -707,7 +707,14 @@ func (env *SpecEnv) evalCall(x *SCall) Val {
 	case "dbmap":
 		// dbmap(d): the ghost key/value content of database d
 		argn(1)
-		d, ok := env.eval(x.Args[0]).(Sc)
+		dv := env.eval(x.Args[0])
+		if p, isPtr := dv.(PtrV); isPtr {
+			// a concrete database behind a pointer (*pebble.Database): same identification as the externs use
+			in.D.declareSort("Iface")
+			in.D.declareFun("box_Ref", []string{SRef}, "Iface")
+			return MapV{M: in.dbCell(App("box_Ref", "Iface", in.refOf(p))), Nil: TFalse}
+		}
+		d, ok := dv.(Sc)
 		if !ok || d.T.Sort != "Iface" {
 			env.fail("dbmap() of a non-database value")
 		}
